@@ -73,6 +73,18 @@ PROPS["C10"] = {
     ],
 }
 
+PROPS["C16"] = {
+    "kani": "c16",
+    "level": "model_checking",
+    "explanation": "Bounded model checking (Kani/CBMC) of the integer-epoch unit heuristic that every numeric spelling of a time goes through: for every i64 in each documented digit window the result is the floor of the denoted instant in seconds (the value an ISO-8601 spelling of the same instant gets), including instants before 1970 and both digit-count boundaries of every unit; 20+ digit integers are rejected for every i128.",
+    "outside": [
+        "ISO-8601 / RFC 3339 spellings and UTC offsets (chrono parsing does not finish under Kani), agreement of the four normalisation call sites on strings",
+        "the choice of unit at a digit-count boundary is the documented heuristic itself (an 11-digit millisecond value is read as seconds); it is taken as given, not checked against the caller's intent",
+        "temporal pruner clamping of negative probes, configured timezone / week start, PER bucket alignment (C08 A-4 covers naive bucket arithmetic)",
+        "microsecond / nanosecond windows under Kani (i128 division by 10^6 / 10^9 does not finish in the quick cap; thorough tier, optional)",
+    ],
+}
+
 # Properties not (or not yet) claimed, each with the reason. Entries are removed from here
 # when a check for the property is registered in PROPS.
 NOT_APPLICABLE = {
@@ -87,7 +99,6 @@ NOT_APPLICABLE = {
     "C13": "check not built yet",
     "C14": "check not built yet",
     "C15": "group.rs/matcher.rs operate on HashMap<String, GroupedRowIndices> and HashMap-backed candidate zones; at 3-4 min per hash-map operation under Kani no harness with two events per side finishes, and the two-pointer sweep is a data-dependent loop the MIR path engine cannot summarise",
-    "C16": "check not built yet",
     "C17": "check not built yet",
     "C19": "check not built yet",
     "C20": "encoders are arrow array builders, serde_json/sonic writers and String formatting over Vec<ScalarValue> batches; none finishes under Kani (serde_json probe exhausted 30 GB) and the equivalence is a data relation, not a guard/ordering fact the MIR engine can state",
